@@ -47,6 +47,12 @@ type Contract struct {
 	Allocates   bool
 	ModifiesAll bool
 	MayPanic    bool
+	RefIface    string // refine: "pkg.Iface"
+	RefVar      string
+	RefType     string
+	Coupling    *Clause
+	Models      map[string]*Clause
+	ModelParams map[string]string
 	Implements  string
 	Callers     []*Clause
 	Requires    []*Clause
@@ -90,9 +96,9 @@ type PkgSpec struct {
 }
 
 var clauseKW = map[string]bool{"requires": true, "ensures": true, "modifies": true, "loop": true, "allocates": true,
-	"params": true, "vars": true, "pure": true, "trusted": true, "bounded": true, "assumes": true, "maypanic": true, "callers": true}
+	"params": true, "vars": true, "pure": true, "trusted": true, "bounded": true, "assumes": true, "maypanic": true, "callers": true, "coupling": true, "model": true}
 
-var headRe = regexp.MustCompile(`^(func|type|lemma|canary)\s+(.*)$`)
+var headRe = regexp.MustCompile(`^(func|type|lemma|canary|refine)\s+(.*)$`)
 var tagsRe = regexp.MustCompile(`\[(C[0-9]+(?:\s*,\s*C[0-9]+)*)\]`)
 var labelRe = regexp.MustCompile(`^(requires|ensures|assumes|callers|invariant|decreases)(\[[^\]]*\])?\s*(.*)$`)
 
@@ -231,6 +237,15 @@ func ParseContractFile(path, pkgPath string) (*PkgSpec, error) {
 				}
 			}
 			cur.Key = strings.Join(keyParts, " ")
+			if cur.Kind == "refine" {
+				// "pkg.Iface by v *T"
+				if len(keyParts) != 4 || keyParts[1] != "by" {
+					return nil, fmt.Errorf("%s:%d: refine <pkg.Iface> by <var> <Type>", path, ln+1)
+				}
+				cur.RefIface, cur.RefVar, cur.RefType = keyParts[0], keyParts[2], keyParts[3]
+				cur.Models = map[string]*Clause{}
+				cur.ModelParams = map[string]string{}
+			}
 			ps.Contracts = append(ps.Contracts, cur)
 			continue
 		}
@@ -259,6 +274,25 @@ func ParseContractFile(path, pkgPath string) (*PkgSpec, error) {
 			cur.Allocates = true
 		case "maypanic":
 			cur.MayPanic = true
+		case "coupling":
+			c := &Clause{Kind: "coupling", Label: "coupling", Raw: strings.TrimSpace(strings.TrimPrefix(text, "coupling")), Line: ln + 1, Tags: cur.Tags}
+			cur.Coupling = c
+			curClause = c
+		case "model":
+			rest := strings.TrimSpace(strings.TrimPrefix(text, "model"))
+			i := strings.Index(rest, ":=")
+			if i < 0 {
+				return nil, fmt.Errorf("%s:%d: model NAME[(params)] := EXPR", path, ln+1)
+			}
+			head := strings.TrimSpace(rest[:i])
+			name, params := head, ""
+			if j := strings.Index(head, "("); j >= 0 {
+				name, params = strings.TrimSpace(head[:j]), strings.TrimSuffix(head[j+1:], ")")
+			}
+			c := &Clause{Kind: "model", Label: name, Raw: strings.TrimSpace(rest[i+2:]), Line: ln + 1, Tags: cur.Tags}
+			cur.Models[name] = c
+			cur.ModelParams[name] = params
+			curClause = c
 		case "bounded":
 			cur.Bounded = strings.TrimSpace(strings.TrimPrefix(text, "bounded"))
 		case "params":
@@ -774,6 +808,29 @@ func (e *Engine) GenerateOverlay(ps *PkgSpec, pkg *types.Package, fnByKey map[st
 				errs = append(errs, fmt.Sprintf("%s:%d: %v", ps.File, con.Line, err))
 				continue
 			}
+		case "refine":
+			base := []string{con.RefVar + " " + con.RefType}
+			if con.Coupling != nil {
+				emit(con.Coupling, con, base, "bool")
+			}
+			var mnames []string
+			for n := range con.Models {
+				mnames = append(mnames, n)
+			}
+			sort.Strings(mnames)
+			for _, n := range mnames {
+				ret := e.ghostRetType(con.RefIface, n)
+				if ret == "" {
+					errs = append(errs, fmt.Sprintf("%s:%d: model %s: no ghost function of that name for %s", ps.File, con.Line, n, con.RefIface))
+					continue
+				}
+				params := base
+				if con.ModelParams[n] != "" {
+					params = append(append([]string{}, base...), con.ModelParams[n])
+				}
+				emit(con.Models[n], con, params, ret)
+			}
+			continue
 		case "lemma":
 			us = &unitSig{}
 			for _, v := range splitTop(con.VarsText, ",") {
